@@ -58,6 +58,9 @@ type LockReq struct {
 	Mutex string   `json:"mutex"` // field name of the mutex
 	Funcs []string `json:"funcs"` // entry points
 	As    string   `json:"as"`
+	// optional: field name -> receiver type; a call r.<field>.<M>(...) is inlined as
+	// the program of <type>.<M> (interface-typed fields with a known implementation)
+	Delegates map[string]string `json:"delegates,omitempty"`
 }
 
 type Spec struct {
@@ -298,6 +301,37 @@ func findFunc(p *pkgInfo, name string) *ast.FuncDecl {
 	return nil
 }
 
+// findMethod finds method fn of type recv, also when it is promoted from an
+// embedded struct (depth-limited).
+func findMethod(p *pkgInfo, recv, fn string, depth int) *ast.FuncDecl {
+	if fd := findFunc(p, recv+"."+fn); fd != nil || depth == 0 {
+		return fd
+	}
+	for _, f := range p.files {
+		for _, d := range f.Decls {
+			gd, ok := d.(*ast.GenDecl)
+			if !ok || gd.Tok != token.TYPE {
+				continue
+			}
+			for _, sp := range gd.Specs {
+				ts := sp.(*ast.TypeSpec)
+				st, ok := ts.Type.(*ast.StructType)
+				if !ok || ts.Name.Name != recv {
+					continue
+				}
+				for _, fl := range st.Fields.List {
+					if len(fl.Names) == 0 {
+						if fd := findMethod(p, recvName(fl.Type), fn, depth-1); fd != nil {
+							return fd
+						}
+					}
+				}
+			}
+		}
+	}
+	return nil
+}
+
 func recvName(e ast.Expr) string {
 	switch x := e.(type) {
 	case *ast.StarExpr:
@@ -458,8 +492,10 @@ func structFields(p *pkgInfo, name string) ([]fieldInfo, bool) {
 
 type lockOp string
 
+var lockDelegates map[string]string // of the LockReq being processed
+
 func lockProg(p *pkgInfo, recv, mutex, fn string, depth int) ([]string, bool) {
-	fd := findFunc(p, recv+"."+fn)
+	fd := findMethod(p, recv, fn, 3)
 	if fd == nil || fd.Body == nil {
 		return nil, false
 	}
@@ -486,6 +522,16 @@ func lockProg(p *pkgInfo, recv, mutex, fn string, depth int) ([]string, bool) {
 						ops = append(ops, sel.Sel.Name)
 					}
 					return true
+				}
+			}
+		}
+		// r.field.Method(...) where field is declared as a delegate
+		if inner, ok := sel.X.(*ast.SelectorExpr); ok && depth > 0 && !isDefer {
+			if id, ok := inner.X.(*ast.Ident); ok && id.Name == rname {
+				if impl, ok := lockDelegates[inner.Sel.Name]; ok {
+					if sub, ok := lockProg(p, impl, mutex, sel.Sel.Name, depth-1); ok {
+						ops = append(ops, sub...)
+					}
 				}
 			}
 		}
@@ -701,6 +747,7 @@ func main() {
 		}
 		fmt.Fprintf(&lb, "Definition %s : list (string * list lockop) := [\n", r.As)
 		var rows []string
+		lockDelegates = r.Delegates
 		for _, fn := range r.Funcs {
 			ops, ok := lockProg(p, r.Recv, r.Mutex, fn, 4)
 			if !ok {
